@@ -235,6 +235,7 @@ type pstate struct {
 	W      *big.Int
 	sf     map[string]*big.Int // stableswap scaling factors
 	f      *big.Rat            // spread factor
+	x      *big.Rat            // exit fee (legacy pools only)
 }
 
 func (s *pstate) clone() *pstate {
@@ -261,6 +262,7 @@ func (w *world) readPools(ctx sdk.Context) map[uint64]*pstate {
 			s.B[c.Denom] = bi(c.Amount)
 		}
 		s.f = new(big.Rat).SetFrac(cp.GetSpreadFactor(ctx).BigInt(), decUnit)
+		s.x = new(big.Rat).SetFrac(cp.GetExitFee(ctx).BigInt(), decUnit)
 		switch q := cp.(type) {
 		case *balancer.Pool:
 			s.wt = map[string]*big.Int{}
@@ -536,10 +538,15 @@ func (w *world) replay(op, kind string, pre, post map[uint64]*pstate, ops []pool
 				if s.B[c.Denom] == nil {
 					return bail("exit event with denom outside the pool")
 				}
-				l := new(big.Int).Mul(bi(c.Amount), s.S)
-				r := new(big.Int).Mul(burn, s.B[c.Denom])
+				// the exit fee stays in the pool: only burn*(1-x) shares are redeemed
+				l := new(big.Rat).SetInt(new(big.Int).Mul(bi(c.Amount), s.S))
+				r := new(big.Rat).SetInt(new(big.Int).Mul(burn, s.B[c.Denom]))
+				r.Mul(r, new(big.Rat).Sub(big.NewRat(1, 1), s.x))
 				if l.Cmp(r) > 0 {
-					return fail("proportional-exit", "pool %d: exit of %s shares of %s paid %s of reserve %s: more than the proportional amount floor(%s)", s.id, burn, s.S, c, s.B[c.Denom], new(big.Int).Quo(r, s.S))
+					return fail("proportional-exit", "pool %d (exit fee %s): exit of %s shares of %s paid %s of reserve %s: more than the proportional amount %s", s.id, s.x.FloatString(6), burn, s.S, c, s.B[c.Denom], new(big.Rat).Quo(r, new(big.Rat).SetInt(s.S)).FloatString(3))
+				}
+				if s.x.Sign() > 0 {
+					run.Count("c04/exits-with-exit-fee-checked")
 				}
 				s.B[c.Denom] = new(big.Int).Sub(s.B[c.Denom], bi(c.Amount))
 			}
@@ -761,14 +768,19 @@ func (w *world) balExitSingle(s *pstate, d string, q, burn *big.Int) (*big.Float
 	om := fQuo(fInt(s.wt[d]), fInt(s.W))
 	phi := fSub(fOne, fMul(fSub(fOne, om), fRat(s.f)))
 	qf, bf := fInt(q), fInt(burn)
-	// shares = S * (1 - (1 - q/(phi*B))^om), truncated (exit fee is zero in this version)
+	// shares = S * (1 - (1 - q/(phi*B))^om) / (1 - exitFee), truncated
 	y := fSub(fOne, fQuo(qf, fMul(phi, B)))
 	if y.Sign() <= 0 {
 		panic("harness: single-asset exit beyond the reserve succeeded")
 	}
 	P := fPow(y, om)
-	exact := fMul(S, fSub(fOne, P))
-	tolQ := fMul(S, powTol(y, om, P, fQuo(fMul(fI64(2), e18), om)))
+	// with an exit fee x the shares to burn are that amount divided by (1-x)
+	keep := fSub(fOne, fRat(s.x))
+	exact := fQuo(fMul(S, fSub(fOne, P)), keep)
+	tolQ := fQuo(fMul(S, powTol(y, om, P, fQuo(fMul(fI64(2), e18), om))), keep)
+	if s.x.Sign() > 0 {
+		run.Count("c04/exits-with-exit-fee-checked")
+	}
 	diff := fSub(exact, bf) // positive: too few shares burned
 	w.slack("exit-by-tokens", diff, fAdd(tolQ, fOne))
 	if diff.Cmp(fAdd(tolQ, fOne)) > 0 {
